@@ -363,7 +363,7 @@ def flushed_lists(fi, loop):
 def resloop_signature(repo, res, rl: ResLoop, cap=4096):
     """-> (list[IterSig], Atomizer) for a 'for' resource loop."""
     fi = rl.fi
-    at = Atomizer(repo, res, fi, rl.var, 'stream', scope_node=fi.node)
+    at = Atomizer(repo, res, fi, rl.var, 'stream', scope_node=rl.node)
     facts = Facts(fi, include_nested=False)
     flushed = flushed_lists(fi, rl.node)
     en = Enumerator(cap=cap, where=fi.qualname)
